@@ -28,11 +28,11 @@ def cases(tier, seed):
 
     both = [{'vectorize': False}, {'vectorize': True}]
     # one node
-    for lt, edges in gen.flat_circuits(1, 2, gen.QUICK_NODES + ['TL', 'TP', 'PPT2R']):
+    for lt, edges in gen.flat_circuits(1, 2, gen.QUICK_NODES + ['TL', 'TP', 'PPT2R', 'T2P', 'PPT2P']):
         add(gen.make_spec(lt, edges), both, 'flat1')
     # two nodes
     for lt, edges in gen.flat_circuits(2, 2 if tier == 'quick' else 3, gen.QUICK_NODES if tier != 'quick' else
-                                       ['L', 'SA', 'AO', 'XV', 'T1', 'T2', 'T2R', 'TW', 'TU', 'LT', 'LS', 'PPT2', 'LO']):
+                                       ['L', 'SA', 'AO', 'XV', 'T1', 'T2', 'T2R', 'T2P', 'TW', 'TU', 'LT', 'LS', 'PPT2', 'LO']):
         s = gen.make_spec(lt, edges)
         add(s, both, 'flat2')
         if len(edges) >= 1 and lt[0][1] in ('L', 'SA', 'LT', 'T1') and lt[1][1] in ('T1', 'T2', 'LT', 'PPT2'):
@@ -68,6 +68,12 @@ def cases(tier, seed):
     if tier != 'quick':
         for lt, edges in gen.flat_circuits(3, 3, gen.SMALL_NODES, with_self=False):
             add(gen.make_spec(lt, edges), both, 'flat3')
+    # large merged groups (>= 10 edges per group: the sparse / indexed realisation of the vectorizer), shared with C04
+    from . import C04
+    for c in C04.cases(tier, seed):
+        if c.get('tag', '').startswith(('one2one12', 'fanout', 'ring12', 'hub12', 'pairs12')) and not c.get('delayed') \
+                and c.get('matrix_sparseness') is None:
+            add(c['spec'], [{'vectorize': True}, {'vectorize': False}], 'big_' + c['tag'])
     return out
 
 
